@@ -286,6 +286,10 @@ def observer_arms(d, T, validated):
             '"arb" => { let bytes: Vec<u8> = inp.as_array().unwrap().iter().map(|b| b.as_u64().unwrap() as u8).collect(); '
             '(with_timeout(3000, move || { let mut u = ::arbitrary::Unstructured::new(&bytes); '
             'match <%s as ::arbitrary::Arbitrary>::arbitrary(&mut u) { Ok(t) => ok(t.into_inner().enc()), Err(_) => json!({"k": "aerr"}) } }), Value::Null) }' % T)
+        arms.append(
+            '"arb_hit" => { let bytes: Vec<u8> = inp["bytes"].as_array().unwrap().iter().map(|b| b.as_u64().unwrap() as u8).collect(); '
+            '(with_timeout(3000, move || { let mut u = ::arbitrary::Unstructured::new(&bytes); '
+            'match <%s as ::arbitrary::Arbitrary>::arbitrary(&mut u) { Ok(t) => ok(t.into_inner().enc()), Err(_) => json!({"k": "aerr"}) } }), Value::Null) }' % T)
         if fam == "int":
             arms.append(
                 '"arb_cover" => { (with_timeout(300000, move || { let mut got: Vec<i128> = Vec::new(); let (mut oks, mut errs, mut panics) = (0u64, 0u64, 0u64); let mut witness = Value::Null; '
